@@ -67,11 +67,19 @@ type Obligation struct {
 }
 
 type Query struct {
-	Hyps  []*Term
-	Goal  *Term
-	Path  string
-	Decls *Decls
-	Vars  []string // model variables of interest
+	Hyps   []*Term
+	Goal   *Term
+	Path   string
+	Decls  *Decls
+	Vars   []string // model variables of interest
+	Slices []modelSlice
+}
+
+// modelSlice is a []byte parameter as it was at function entry.
+type modelSlice struct {
+	Name string
+	S    *Term // the slice value
+	Mem  *Term // byte memory at entry
 }
 
 // Unit is everything known about one loaded package.
@@ -119,6 +127,8 @@ type Exec struct {
 	loopCount []int // stack for loop ordinal paths
 	specDefs map[string]bool // spec functions already defined in D
 	modelVars []string
+	// byte-slice parameters at function entry (for projecting a model onto inputs)
+	modelSlices []modelSlice
 	curHookProps []string
 	safety bool
 	curPath string
@@ -721,7 +731,7 @@ func (ex *Exec) oblige(st *State, kind, anchor string, pos token.Pos, goal *Term
 		}
 		return
 	}
-	ob.Queries = append(ob.Queries, &Query{Hyps: append([]*Term(nil), st.pc...), Goal: goal, Decls: ex.D, Path: strings.Join(st.path, ">"), Vars: ex.modelVars})
+	ob.Queries = append(ob.Queries, &Query{Hyps: append([]*Term(nil), st.pc...), Goal: goal, Decls: ex.D, Path: strings.Join(st.path, ">"), Vars: ex.modelVars, Slices: ex.modelSlices})
 }
 
 func (ex *Exec) obligeAST(kind, anchor string, pos token.Pos, ok bool, msg string, props []string) {
